@@ -159,6 +159,23 @@ fn run_bytes(log: &mut Log, tag: &str, text: &[u8], plan: &Plan) {
                 log.oblige("resample_multiple_rate_multi_sentinel");
             }
         }
+        // sampling rates at and beyond 2^32 (legal usize values; only row 0 is sampled). The value does not
+        // fit the checker's integers: it is logged as a decimal string, "s" carries the surrogate 2^31-1
+        // (any rate > n behaves alike)
+        if n <= 9 || h % 7 == 0 {
+            const HUGE: [usize; 8] = [(1 << 32) - 1, 1 << 32, (1 << 32) + 1, (1 << 32) + 2, (1 << 32) + 3, (1 << 33) + 5, 1 << 40, usize::MAX];
+            for &big in &[HUGE[h % 8], HUGE[(h / 8 + 3) % 8]] {
+                let kc = plan.samples[0].1;
+                log.call("sample", json!({"sa": usizes(&sa), "s": 2147483647, "s_str": big.to_string(), "k": kc, "own": 0, "s1": 0, "serde": 0}), || {
+                    let occ = Occ::new(&b, kc, &alphabet);
+                    let smp = sa.sample(text, &b, &l, &occ, big);
+                    let v: Vec<usize> = (0..smp.len()).map(|i| smp.get(i).unwrap_or(usize::MAX >> 34)).collect();
+                    let oob = smp.get(n).map(|x| x as i64).unwrap_or(-1);
+                    json!({"v": usizes(&v), "oob": oob})
+                });
+                log.oblige("sample_rate_ge_2p32");
+            }
+        }
         // clone() of the sampled array, and clone_from() into a sampled array that was built for ANOTHER
         // text and has already answered; the copy and the original are both asked afterwards
         {
@@ -808,6 +825,41 @@ pub fn drive(log: &mut Log) {
         }
     }
 
+    // (l) suffix_array_int where the largest symbol is (close to) the integer type's maximum:
+    //     u8 with max 253, 254, 255 and u16 with max 65535 (65534 in thorough); dense texts, unique 0
+    for &(mx, w, reps) in &[(253usize, 8u32, 3usize), (254, 8, 2), (255, 8, 3), (255, 8, 1), (65_535, 16, 1), (65_534, 16, 1)] {
+        if mx == 65_534 && !th {
+            continue;
+        }
+        case += 1;
+        if !log.mine(case) {
+            continue;
+        }
+        let mut rng = Rng::new(seed, 26, case);
+        let mut text: Vec<usize> = vec![];
+        for _ in 0..reps {
+            text.extend(1..=mx);
+        }
+        for i in (1..text.len()).rev() {
+            let j = rng.below(i as u64 + 1) as usize;
+            text.swap(i, j);
+        }
+        text.push(0);
+        if w == 16 {
+            // all symbols distinct: the suffix array is the inverse permutation (closed form; the general
+            // predicate would rank 65,536 distinct symbols against each other)
+            if log.begin("intperm", json!({"kind": "int", "text": usizes(&text)})) {
+                log.call("suffix_array_perm", json!({ "w": w }), || {
+                    let sa = suffix_array_int(&text.iter().map(|&x| x as u16).collect::<Vec<u16>>());
+                    json!({"sa": usizes(&sa)})
+                });
+            }
+        } else {
+            run_int(log, "intmax", &text, w);
+        }
+        log.oblige(if w == 8 { "int_u8_max_symbol_253_to_255" } else { "int_u16_max_symbol_65535" });
+    }
+
     // (g) more than 65,535 sentinel occurrences: ranks of the transformed text need 32 bits
     for v in 0..log.opts.n(1, 2) {
         case += 1;
@@ -830,9 +882,10 @@ pub fn drive(log: &mut Log) {
 
     // (h) a text longer than 2^24 (not exactly representable as f32), sampled; unary closed-form family
     let unary: &[(usize, u32, usize)] = if th {
-        &[((1 << 24) + 1, 128, 32), ((1 << 24) + 1, 65, 64), ((1 << 24) + 3, 128, 2)]
+        &[((1 << 24) + 1, 128, 32), ((1 << 24) + 1, 65, 64), ((1 << 24) + 3, 128, 2), ((1 << 24) + 1, 128, 2), ((1 << 24) + 1, 128, 3),
+          ((1 << 24) + 1, 128, 5), ((1 << 24) + 1, 128, 7)]
     } else {
-        &[((1 << 24) + 1, 128, 32)]
+        &[((1 << 24) + 1, 128, 32), ((1 << 24) + 1, 128, 2)]
     };
     for &(n, k, s) in unary {
         case += 1;
